@@ -263,7 +263,31 @@ def run(C, R):
                 if shape == ('Ready', 'None'):
                     ok = term_now and futv in ('None',) or (term_now and fut[0] == 'init' and fut0 != ('eq', 'Some'))
                     # already-terminated fast path: nothing stored at all
-                    if ok:
+                    # the end must be the channel's own verdict "closed and drained": an inner receive future that
+                    # completed with None, or a try_receive that said Closed - not an inference from something else
+                    # (a handle counter, an Empty result), unless the stream had ended before this call
+                    already = (flag0 == 1) if adt == SHARED_STREAM else \
+                        E.variant_known(path.facts, ('init', (('P', 'self'), 'channel'))) == ('eq', 'None')
+                    witness = already
+                    for e in path.events:
+                        if e['k'] == 'ret' and e['name'] == 'poll' and 'ReceiveFuture' in e['callee']:
+                            rv_ = e['ret']
+                            if variant_of(E, path, rv_) == 'Ready':
+                                inner_ = E.project(rv_, (('dc', 'Ready'), '0'))
+                                if variant_of(E, path, inner_) == 'None':
+                                    witness = True
+                        elif e['k'] in ('ret', 'call') and e['name'] == 'try_receive' and e.get('ret') is not None:
+                            rv_ = e['ret']
+                            if variant_of(E, path, rv_) == 'Err':
+                                inner_ = E.project(rv_, (('dc', 'Err'), '0'))
+                                if variant_of(E, path, inner_) == 'Closed':
+                                    witness = True
+                    if ok and not witness:
+                        R.fail('C17.R5', [fn['path'], 'end-of-stream-without-closed-verdict'],
+                               '%s ends the stream (Ready(None), terminated) on a path on which neither an inner receive '
+                               'future completed with None nor try_receive reported Closed: the channel may be open [%s]'
+                               % (fn['path'], pc), '%s:%s' % (fn['file'], fn['line']), {'trace': trace_summary(path)})
+                    elif ok:
                         R.ok('C17.R5', '%s|Ready(None) => terminated, future cleared|%s' % (fn['path'], pc))
                     else:
                         R.fail('C17.R5', [fn['path'], 'end-of-stream-not-latched', 'term=%s fut=%s' % (term_now, futv)],
